@@ -206,7 +206,9 @@ def memo_histories(ctx):
             args = ()
             if meth == 'mom2_along':
                 u = tuple(rng.randint(-3, 3) or 1 for _ in range(nds[k]))
-                args = (u,)
+                # the direction as a tuple, or in a form that cannot be a dictionary key (list, array): the first
+                # call on an object must behave like any later one
+                args = (rng.choice([u, u, list(u), np.array(u, dtype=float)]),)
             try:
                 got = getattr(live[k], meth)(*args)
                 want = getattr(stat_of(objs_pts[k], nds[k]), meth)(*args)
